@@ -47,3 +47,10 @@ Definition wf_bondmachine (rs : nat) (doms : list (arch * list bstr)) (t : bm) :
   forallb (fun p => Nat.eqb (fst (fst p)) (N.to_nat (nin (fst (snd p)))) && Nat.eqb (snd (fst p)) (N.to_nat (nout (fst (snd p)))))
           (combine (Topo.doms t) doms).
 End W.
+
+(* what a front-end may emit: every processor has a program at its reset address, and every output of the
+   machine is driven by something *)
+Definition roms_nonempty (doms : list (arch * list bstr)) (t : bm) : bool :=
+  forallb (fun d => match nth_error doms d with Some (_, rom) => negb (Nat.eqb (List.length rom) 0) | None => false end) (Topo.procs t).
+Definition outputs_driven (t : bm) : bool :=
+  forallb (fun p => match fst p, snd p with BO _, None => false | _, _ => true end) (combine (Topo.iin t) (Topo.links t)).
